@@ -226,6 +226,7 @@ pub fn note_layout(st: &mut RunStats, enc: &Encoded, layout: &Layout) {
     st.probe("stream_slice_longer_than_32767_bytes", s.max_stream_len_in_packet > 32_767);
     st.probe("ignored_packet_of_65536_bytes", s.max_non_data_packet_len == 65536);
     st.probe("index_packet_above_leaf_level", s.max_index_level > 0);
+    st.probe("more_than_1024_non_data_packets_between_two_data_packets", s.long_run_of_non_data);
     st.probe("xml_lexical_variants", layout.lexical);
     st.probe("optional_type_attributes_omitted", layout.omit_defaults);
     st.probe("sections_shuffled_and_padded", layout.shuffle);
@@ -412,7 +413,21 @@ impl Prop for C03 {
             prog.calls.push(Call::Pc { guid: gen_guid(&mut g), proto, steps: vec![PcStep::Points { n, seed: g.next_u64() }], end: SubEnd::Finalize });
         }
         let mut l = Rng::stream(rc.run_seed, "layout");
-        let layout = Layout::draw(&mut l);
+        let mut layout = Layout::draw(&mut l);
+        if rc.index % 1024 == 700 {
+            // more than half a million points written attribute by attribute: the one-bit
+            // attribute is complete after two packets while the others have just begun
+            let proto: Vec<Rec> = vec![
+                Rec { name: Name::Std(0), dt: DType::Int { min: 0, max: 1 } },
+                Rec { name: Name::Std(1), dt: DType::Int { min: 0, max: 255 } },
+                Rec { name: Name::Std(2), dt: DType::Int { min: -128, max: 127 } },
+            ];
+            let n = 540_000 + g.usize_below(80_000);
+            prog.calls.retain(|c| !matches!(c, Call::Pc { .. }));
+            prog.calls.push(Call::Pc { guid: gen_guid(&mut g), proto, steps: vec![PcStep::Points { n, seed: g.next_u64() }], end: SubEnd::Finalize });
+            layout.split = Split::Sequential;
+            layout.max_packets = 60;
+        }
         let mut c = Rng::stream(rc.run_seed, "chunk-dev");
         let names = refcodec::bundled_names();
         let bundled = if (rc.index as usize) < names.len() { Some(names[rc.index as usize].clone()) } else { None };
